@@ -46,14 +46,69 @@ M=[
                 v[value].erase(it);""","""            auto it = std::lower_bound(std::begin(v.back()), std::end(v.back()), id);
             if (it != std::end(v.back()) && *it == id)
                 v.back().erase(it);"""),
+ # ---- round 3: the parts that were only tested before; each keeps FilterMapTests / UtilsCoreTests passing (python3 tools/mutations_c20.py --unit R1 …)
+ ('R1 IndexSkipMapIterator::skip() loses the container bound', 'include/AIToolbox/Utils/IndexMap.hpp',
+  """                while (currentId_ < items_.size() &&
+                       currentSkipId_ < ids_.size() &&""","""                while (currentSkipId_ < ids_.size() &&"""),
+ ('R2 FilterMap(trie, items) rejects only a container that is too large', 'include/AIToolbox/Factored/Utils/FilterMap.hpp',
+  """                if (ids_.size() != items_.size())""","""                if (ids_.size() < items_.size())"""),
+ ('R3 FilterMap::filter(f, offset) const drops the offset', 'include/AIToolbox/Factored/Utils/FilterMap.hpp',
+  """                return ConstIterable(ids_.filter(f, offset), items_);""","""                return ConstIterable(ids_.filter(f), items_);"""),
+ ('R4 Trie::reserve resizes the id lists instead of reserving', 'src/Factored/Utils/Trie.cpp',
+  """        for (auto && v : ids_)
+            v.reserve(size);""","""        for (auto && v : ids_)
+            for (auto && vv : v)
+                vv.resize(size);"""),
+ ('R5 IndexMap::sort() sorts only the first four ids', 'include/AIToolbox/Utils/IndexMap.hpp',
+  """                std::sort(std::begin(ids_), std::end(ids_), [this](auto lhs, auto rhs) {""","""                std::partial_sort(std::begin(ids_), std::begin(ids_) + std::min<size_t>(4, ids_.size()), std::end(ids_), [this](auto lhs, auto rhs) {"""),
+ ('R6 IndexMapIterator::operator--(int) returns the decremented iterator', 'include/AIToolbox/Utils/IndexMap.hpp',
+  """            auto operator--(int) {
+                auto tmp = *this;
+                --currentId_;
+                return tmp;""","""            auto operator--(int) {
+                --currentId_;
+                auto tmp = *this;
+                return tmp;"""),
+ ('R7 Trie::refine gives up when the id list is longer than the candidate list of the first key', 'src/Factored/Utils/Trie.cpp',
+  """        filters.emplace_back(
+            std::end(ids), std::end(ids),
+            std::begin(ids), std::end(ids)
+        );""","""        filters.emplace_back(
+            std::end(ids), std::end(ids),
+            std::begin(ids), std::begin(ids) + std::min(ids.size(), ids_[pf.first[0]].back().size() + ids_[pf.first[0]][pf.second[0]].size())
+        );"""),
+ ('R8 IndexSkipMap::cend() ends at the number of skipped ids', 'include/AIToolbox/Utils/IndexMap.hpp',
+  """            auto cend() const { return const_iterator(items_.size(), ids_, items_); }""","""            auto cend() const { return const_iterator(items_.size() - (ids_.size() > items_.size() ? 1 : 0), ids_, items_); }"""),
+ ('R9 (indirect) Factored::match(pf, pf) never looks at the last key of the longer list', 'src/Factored/Utils/Core.cpp',
+  """        while (j < smallerK->size() && i < biggerK->size()) {""","""        while (j < smallerK->size() && i + 1 < biggerK->size()) {"""),
+ ('R10 (indirect) Factored::merge(pf, pf) does not step over a shared key of the left operand when it is its last one', 'src/Factored/Utils/Core.cpp',
+  """                if (lhs.first[i] == rhs.first[j]) ++i;
+                ++j;
+            }
+        }
+        retval.first.insert(std::end(retval.first),   std::begin(lhs.first) + i, std::end(lhs.first));""","""                if (lhs.first[i] == rhs.first[j] && i + 1 < lhs.first.size()) ++i;
+                ++j;
+            }
+        }
+        retval.first.insert(std::end(retval.first),   std::begin(lhs.first) + i, std::end(lhs.first));"""),
+ ('R11 IndexMapIterator::operator[](diff) const (const overload only) adds diff to the id instead of moving the cursor', 'include/AIToolbox/Utils/IndexMap.hpp',
+  """            const auto & operator[](difference_type diff) const {
+                return (*items_)[*(currentId_ + diff)];""","""            const auto & operator[](difference_type diff) const {
+                return (*items_)[*currentId_ + diff];"""),
+ ('R12 IndexSkipMapIterator::operator*() const (const overload only) reads the skip cursor', 'include/AIToolbox/Utils/IndexMap.hpp',
+  """            const auto& operator*() const { return items_[toContainerId()]; }""","""            const auto& operator*() const { return items_[currentSkipId_]; }"""),
 ]
-sel = sys.argv[1:] 
+unit = '--unit' in sys.argv
+sel = [a for a in sys.argv[1:] if a != '--unit']
 for name, f, a, b in M:
     if sel and name.split()[0] not in sel: continue
     p=os.path.join(REPO,f); s=open(p).read()
     if s.count(a)!=1:
         print(name, 'PATTERN COUNT', s.count(a)); continue
     open(p,'w').write(s.replace(a,b))
+    if unit:
+        u=subprocess.run(['python3','tools/dev/unittests_c20.py'],cwd=WT,env=env,capture_output=True,text=True)
+        print('== unit tests:', 'PASS' if u.returncode==0 else 'FAIL rc=%d'%u.returncode, ' | '.join(l[:60] for l in u.stdout.splitlines()[-2:]))
     r=subprocess.run(['python3','tools/check.py','C20','--tier','quick'],cwd=WT,env=env,capture_output=True,text=True)
     lines=[l for l in r.stdout.splitlines() if l.startswith('VIOLATION') or l.startswith('[C20]')]
     print('==',name,'exit',r.returncode)
